@@ -856,20 +856,21 @@ fn probes_c02(cx: &mut Ctx) {
             cx.rep.hit("observation: UdpDatagramView::set_length (safe) changes has_required_size of the view bytes");
         }
     }
-    // 2. ScionUdpPacketView::as_raw_mut is safe and exposes the UDP length field through payload_mut; udp() then panics
+    // 2. (fixed) ScionUdpPacketView::as_raw_mut used to be a safe fn handing out payload_mut(), so the UDP
+    //    length field could be rewritten through safe calls and udp() then panicked.  It is an `unsafe fn`
+    //    now (like its SCMP sibling) and the `From<&mut ScionUdpPacketView>` impl is gone; the only safe
+    //    mutable access left on a UDP packet view is header_mut(), exercised by the mutator sequences.
     {
         let mut rng = Rng::new(7);
         let c = HdrCfg { pt: 0, dt: 0, st: 0, hl_mode: 0, segs: (0, 0, 0), ci: 0, ch: 0, nh: 17, pl: 12, extra: 0, ver: 0 };
         let mut b = build_header(&c, &mut rng);
         b.extend_from_slice(&[0, 1, 0, 2, 0, 12, 0, 0, 9, 9, 9, 9]);
-        let case = hex(&b);
         if let Ok((p, _)) = ScionUdpPacketView::try_from_mut_slice(&mut b) {
-            p.as_raw_mut().payload_mut()[5] = 3; // UDP length := 3 through safe calls only
+            // SAFETY (deliberately violated to document the contract): the caller must not touch the UDP length
+            let raw = unsafe { p.as_raw_mut() };
+            raw.payload_mut()[5] = 3;
             let r = catch(|| p.udp().dst_port());
-            cx.rep.hit("probe udp packet as_raw_mut");
-            if let Err(m) = r {
-                cx.rep.spec_fail("C02:panic:udp-after-raw-payload-mut", &format!("ScionUdpPacketView::udp() panics after the safe sequence as_raw_mut().payload_mut()[5] = 3: {}", &m[..m.len().min(100)]), json!({"line": format!("view udppkt {case}")}));
-            }
+            cx.rep.hit(if r.is_err() { "observation: udp() panics after UNSAFE as_raw_mut misuse (contract documented)" } else { "observation: udp() tolerates as_raw_mut misuse" });
         }
     }
     // 3. header set_version is a safe setter; accessors must stay in bounds, sub-views must not panic
